@@ -15,7 +15,7 @@ sys.path.insert(0, os.path.join(os.path.dirname(os.path.dirname(os.path.abspath(
 import numpy as np
 from tools import vlib
 from tools.vlib import d2tok, tok2d
-import femmio, gen, fem_oracle
+import femmio, gen, fem_oracle, cuthill_tie
 from runner import Run
 from checks import C03
 # free-node residual bound of a time-harmonic solution, relative to the magnitudes of the terms that meet in the rows (sources
@@ -405,6 +405,7 @@ def main(argv):
                         if not (v <= (1e-5 if " complex " in l else 1e-6)):
                             ck.violation("true-residual", "the linear solver returned with true relative residual %.3g" % v, dict(files=run.files(), log=l))
             sol = femmio.read_solution(run.solution_path(), "m")
+            cuthill_tie.tie(ck, stats, mx, run, sol, "fsolver")
             stats["nodes"] += len(sol["nodes"])
             mesh = fem_oracle.Mesh(p, sol)
             rest = [l.split() for l in sol["rest"] if l.strip()]
